@@ -947,6 +947,21 @@ class TaskScenario(ScenarioData):
                 # Subtract what this task had booked and add its actual usage
                 res_scenario.slotSecondsUsed[self.currentSlotIdx] = old_total - booked_seconds + seconds_into_slot
 
+        # A team works the same instants: the other members hand back the same tail
+        for member in getattr(self, "_selectedResources", None) or []:
+            if member is resource:
+                continue
+            member_scenario = member.data[self.scenarioIdx] if member.data else None
+            if not member_scenario:
+                continue
+            records = member_scenario.slotTaskUsage.get(self.currentSlotIdx, [])
+            for i, (task, member_secs) in enumerate(records):
+                if task == self.property and member_secs > seconds_into_slot:
+                    records[i] = (task, seconds_into_slot)
+                    member_total = member_scenario.slotSecondsUsed.get(self.currentSlotIdx, slot_duration_seconds)
+                    member_scenario.slotSecondsUsed[self.currentSlotIdx] = member_total - member_secs + seconds_into_slot
+                    break
+
         return precise_end, seconds_into_slot
 
     def _calculatePreciseEndTime(self, required_effort: float, effort_before_slot: float, forward: bool) -> datetime:
